@@ -40,7 +40,7 @@ class Node:
         return self.id
 
     def text(self) -> str:
-        if self.kind in ("entry", "exit", "xexit"):
+        if self.kind in ("entry", "exit", "xexit", "reraise"):
             return f"<{self.kind}>"
         if self.kind == "test":
             return "[" + _short(self.exprs[0]) + "]"
@@ -115,10 +115,93 @@ class CFG:
         body = func.node.body if not isinstance(func.node, ast.Lambda) else [ast.Return(value=func.node.body)]
         out = self._block(body, [(self.entry.id, "n", None)])
         self._connect(out, self.exit.id)
+        self._prune_flag_tests()
         self._by_ast: dict[int, list[Node]] = {}
         for n in self.nodes:
             if n.ast is not None:
                 self._by_ast.setdefault(id(n.ast), []).append(n)
+
+    # ------------------------------------------------------------------ boolean flags
+    def _prune_flag_tests(self) -> None:
+        """A local that is only ever assigned True / False / None is a *flag*.  Which constants can reach a test of it is a
+        tiny forward data-flow problem; an outcome no reaching constant selects is removed from the graph (e.g. in the
+        exception copy of `finally: if not connected: release()` only `connected = False` arrives, so the release is on the
+        path).  Path queries then respect such flags instead of treating every test as undecided."""
+        fn = self.func.node
+        if isinstance(fn, ast.Lambda):
+            return
+        stores: dict[str, list] = {}
+        bad: set[str] = set(self.func.params)
+        for n in self.nodes:
+            a = n.ast
+            if a is None:
+                continue
+            if n.kind == "stmt" and isinstance(a, ast.Assign) and len(a.targets) == 1 and isinstance(a.targets[0], ast.Name) \
+                    and isinstance(a.value, ast.Constant) and (a.value.value is None or isinstance(a.value.value, bool)):
+                stores.setdefault(a.targets[0].id, []).append(n)
+                continue
+            # any other binding of a name disqualifies it
+            roots = []
+            if n.kind == "stmt":
+                roots = [a]
+            elif n.kind == "for":
+                roots = [a.target]
+            elif n.kind == "with_enter":
+                roots = [it.optional_vars for it in a.items if it.optional_vars is not None]
+            elif n.kind == "handler" and a.name:
+                bad.add(a.name)
+            elif n.kind == "funcdef":
+                bad.add(a.name)
+            for r in roots:
+                for x in ast.walk(r):
+                    if isinstance(x, ast.Name) and isinstance(x.ctx, (ast.Store, ast.Del)):
+                        bad.add(x.id)
+                    elif isinstance(x, (ast.Global, ast.Nonlocal)):
+                        bad.update(x.names)
+            for e in n.exprs:
+                if e is None:
+                    continue
+                for x in walk_expr(e):
+                    if isinstance(x, ast.NamedExpr) and isinstance(x.target, ast.Name):
+                        bad.add(x.target.id)
+        flags = {k: v for k, v in stores.items() if k not in bad}
+        if not flags:
+            return
+        tests = [n for n in self.nodes if n.kind == "test" and isinstance(n.exprs[0], ast.Name) and n.exprs[0].id in flags]
+        if not tests:
+            return
+        UNSET = "<unset>"
+        for name, defs in flags.items():
+            if not any(t.exprs[0].id == name for t in tests):
+                continue
+            def_val = {d.id: d.ast.value.value for d in defs}
+            IN: dict[int, set] = {self.entry.id: {UNSET}}
+            work = deque([self.entry.id])
+            while work:
+                u = work.popleft()
+                cur = IN.get(u, set())
+                for dst, label, _exc in self.nodes[u].succ:
+                    out = {def_val[u]} if (u in def_val and label != "x") else cur
+                    before = IN.setdefault(dst, set())
+                    if not out <= before:
+                        before |= out
+                        work.append(dst)
+            for t in tests:
+                if t.exprs[0].id != name:
+                    continue
+                vals = IN.get(t.id)
+                if not vals or UNSET in vals:
+                    continue
+                if all(bool(v) for v in vals):
+                    self._drop_edges(t, "F")
+                elif not any(bool(v) for v in vals):
+                    self._drop_edges(t, "T")
+
+    def _drop_edges(self, n: Node, label: str) -> None:
+        for e in [e for e in n.succ if e[1] == label]:
+            n.succ.remove(e)
+            d = self.nodes[e[0]]
+            d.pred = [p for p in d.pred if not (p[0] == n.id and p[1] == label)]
 
     # ------------------------------------------------------------------ construction helpers
     def _new(self, kind, a, exprs, lineno=None) -> Node:
@@ -188,7 +271,16 @@ class CFG:
                     self._connect(dangling, fr.copies[key][0])
                     return
                 entry, out = self._fin_copy(fr, i, key, dangling)
-                dangling = [(s, "x", r) for (s, _l, _e) in out]
+                # the end of the copied finally body / with-exit re-raises: a node of its own, so that the outcome labels
+                # (T / F) of a test that ends the body stay on their edges
+                if out:
+                    rr = self._new("reraise", None, [], getattr(fr.node, "end_lineno", None) or getattr(fr.node, "lineno", 0))
+                    rr.copy_of = "exc"
+                    rr.frames = self.nodes[out[0][0]].frames  # it belongs to the copied body, not to the raising statement's region
+                    self._connect(out, rr.id)
+                    dangling = [(rr.id, "x", r)]
+                else:
+                    dangling = []
             i -= 1
         self._connect(dangling, self.xexit.id)
 
@@ -287,6 +379,26 @@ class CFG:
         if isinstance(e, ast.UnaryOp) and isinstance(e.op, ast.Not):
             t, f = self._cond(e.operand, dangling)
             return f, t
+        # jump threading for the result of an inlined helper: an edge that comes straight from `return <constant / display>`
+        # of the helper takes the branch that value selects (the test is decided on that path), so "the helper returned
+        # True" stays a fact of the path instead of being forgotten in a flag variable
+        thr_t, thr_f, rest = [], [], []
+        for edge in dangling:
+            src = self.nodes[edge[0]]
+            v = None
+            if isinstance(src.ast, InlineReturn) and edge[1] == "n":
+                v = _static_truth(e, src.ast.targets[0].id, src.ast.value)
+            if v is True:
+                thr_t.append(edge)
+            elif v is False:
+                thr_f.append(edge)
+            else:
+                rest.append(edge)
+        if (thr_t or thr_f) and not rest:
+            return thr_t, thr_f
+        if thr_t or thr_f:
+            n = self._mk("test", e, [e], rest)
+            return thr_t + [(n.id, "T", None)], thr_f + [(n.id, "F", None)]
         n = self._mk("test", e, [e], dangling)
         if isinstance(e, ast.Constant):
             if e.value:
@@ -552,6 +664,55 @@ class CFG:
 
     def stats(self) -> tuple[int, int]:
         return len(self.nodes), sum(len(n.succ) for n in self.nodes)
+
+
+def _static_truth(e: ast.AST, var: str, val: ast.AST):
+    """Outcome of test ``e`` when ``var`` holds the value of expression ``val`` (a constant or a display), else None."""
+    def value_of(x):
+        if isinstance(x, ast.NamedExpr):
+            return value_of(x.value)
+        if isinstance(x, ast.Name) and x.id == var:
+            return val
+        return None
+
+    def kind(v):
+        # ("const", python value) | ("obj",) for a display that is certainly an object, non-None
+        if isinstance(v, ast.Constant):
+            return ("const", v.value)
+        if isinstance(v, (ast.Tuple, ast.List, ast.Set)):
+            return ("obj", len(v.elts) > 0 and not any(isinstance(x, ast.Starred) for x in v.elts))
+        if isinstance(v, ast.Dict):
+            return ("obj", len(v.keys) > 0)
+        return None
+
+    v = value_of(e)
+    if v is not None:
+        k = kind(v)
+        if k is None:
+            return None
+        if k[0] == "const":
+            return bool(k[1])
+        return True if k[1] else None
+    if isinstance(e, ast.Compare) and len(e.ops) == 1:
+        l, r = value_of(e.left), value_of(e.comparators[0])
+        other = e.comparators[0] if l is not None else e.left if r is not None else None
+        mine = l if l is not None else r
+        if mine is None or not isinstance(other, ast.Constant):
+            return None
+        k = kind(mine)
+        if k is None:
+            return None
+        op = e.ops[0]
+        if isinstance(op, (ast.Is, ast.IsNot)) and other.value is None:
+            is_none = k[0] == "const" and k[1] is None
+            return is_none if isinstance(op, ast.Is) else not is_none
+        if isinstance(op, (ast.Eq, ast.NotEq)) and k[0] == "const":
+            try:
+                eq = k[1] == other.value
+            except Exception:  # noqa: BLE001
+                return None
+            return eq if isinstance(op, ast.Eq) else not eq
+    return None
 
 
 def resolve_exc_classes(prog: Program, func: Func, t: ast.expr) -> list[str]:
